@@ -439,6 +439,7 @@ func init() {
 		"time.runtimeNano": func(st *State, _ *frame, fn *ssa.Function, a []Value) Value { return i64(0) },
 	}
 	delete(intrinsics, "internal/abi.Escape")
+	registerFloatIntrinsics()
 }
 
 func (st *State) throwFatal(msg string) {
